@@ -287,6 +287,12 @@ impl TaskEngine {
 
     pub(crate) fn create_task(&self, payload: &TaskSpawnPayload) -> TaskHandle {
         let task_id = Uuid::new_v4().to_string();
+        #[cfg(feature = "verif")]
+        let (sender, _receiver) = broadcast::channel(rip_kernel::verif::knob(
+            "event_channel_capacity",
+            EVENT_CHANNEL_CAPACITY,
+        ));
+        #[cfg(not(feature = "verif"))]
         let (sender, _receiver) = broadcast::channel(EVENT_CHANNEL_CAPACITY);
 
         let execution_mode: ToolTaskExecutionMode = payload
